@@ -129,13 +129,19 @@ def _outcome(res: list[int]) -> str:
 
 REPRESENTATIVE_BITS = [0, 127] + [1 << i for i in range(7)] + [127 ^ (1 << i) for i in range(7)]   # every option alone on / alone off
 _REP_SET = frozenset(REPRESENTATIVE_BITS)
+QUICK_BITS = REPRESENTATIVE_BITS + [3, 5, 6, 9, 10, 12, 17, 20, 24, 33, 40, 48, 65, 68, 80, 96]    # + 16 pairs of options
 
 
 def corr_exhaustive(ck: Ck, escalate: bool) -> None:
     alpha = [ord(c) for c in SYN_ALPHA]
-    # phase A (both tiers): length <= 3 x all 128 option vectors.  phase B (thorough): length <= 4 x 16 representative vectors.
-    full_cuts = 3 if (ck.thorough or escalate) else 2
-    phases = [(3, [ALL_BITS[i:i + 8] for i in range(0, 128, 8)], full_cuts)]
+    # quick: length <= 2 x all 128 option vectors and length <= 3 x 32 option vectors (every option alone on / alone off and 16
+    # pairs); thorough or escalated: length <= 3 x all 128 (every cut set); thorough also length <= 4 x 16 representative vectors.
+    big = ck.thorough or escalate
+    full_cuts = 3 if big else 2
+    if big:
+        phases = [(3, [ALL_BITS[i:i + 8] for i in range(0, 128, 8)], full_cuts)]
+    else:
+        phases = [(2, [ALL_BITS[i:i + 16] for i in range(0, 128, 16)], 2), (3, [QUICK_BITS[i:i + 2] for i in range(0, 32, 2)], 2)]
     if ck.thorough:
         phases.append((4, [[b] for b in REPRESENTATIVE_BITS], 2))
     bad = []
@@ -156,12 +162,14 @@ def corr_exhaustive(ck: Ck, escalate: bool) -> None:
             if r is None or U.parse_int63(r[0]) != tot:
                 bad.append(g)
     ck.extra['_oracle_from_corr'] = oracle_parts
-    ck.extra['_oracle_scope'] = (3, full_cuts)
+    ck.extra['_oracle_scope'] = (3, full_cuts) if big else (3, 2, 'quick')
     detail = ''
     if bad:
         detail = _locate(ck, bad[0], alpha)
         ck.tie_broken.append('correspondence Tokenizer vs Text/Tokenizer.v (exhaustive small scope)')
-    scope = f'all strings over the {len(SYN_ALPHA)}-symbol syntax alphabet up to length 3 x all 128 option vectors' + \
+    scope = (f'all strings over the {len(SYN_ALPHA)}-symbol syntax alphabet up to length 3 x all 128 option vectors' if big else
+             f'all strings over the {len(SYN_ALPHA)}-symbol syntax alphabet up to length 2 x all 128 option vectors and up to length 3 x 32 '
+             f'option vectors (each option alone on / alone off, 16 pairs)') + \
             (' and up to length 4 x 16 representative option vectors' if ck.thorough else '')
     ck.obligation('correspondence:tokenizer_exhaustive', not bad,
                   f'real Tokenizer vs model: {scope} ({ncases} cases; token kind, value, line_num, _last_was_cr, error '
@@ -480,7 +488,7 @@ def corr_kvparse(ck: Ck, escalate: bool) -> None:
     rng = ck.rng
     # ---- (1) exhaustive token level
     n_all, n_deep = (5, 6) if big else (4, 5)
-    deep_bits = [2, 10, 6, 3] if big else [2, 10, 6]
+    deep_bits = [2, 10, 6, 3] if big else [2, 10]
     tjobs = [(b, 0, n_all) for b in range(16)] + [(b, 0, n_deep) for b in deep_bits] + [(2, 1, n_all), (10, 1, n_all)]
     alpha = coq_list(f'({v}, {coq_str(sv)})' for v, sv in KV_TOK_ALPHA)
     cjobs = [[f'hfin (hash_list (kv_tokens_shard [{b}] {coq_flags(KV_FLAGSETS[fs])} {alpha} {n}))'] for b, fs, n in tjobs]
@@ -980,8 +988,8 @@ def search(ck: Ck, escalate: bool) -> None:
     res = ck.extra.pop('_oracle_from_corr', None)
     scope = ck.extra.pop('_oracle_scope', None)
     if res is None or (big and scope != (3, 3)):
-        groups = [ALL_BITS[i:i + 8] for i in range(0, 128, 8)]
-        scope = (3, 3 if big else 2)
+        groups = [ALL_BITS[i:i + 8] for i in range(0, 128, 8)] if big else [QUICK_BITS[i:i + 2] for i in range(0, 32, 2)]
+        scope = (3, 3) if big else (3, 2, 'quick')
         res = [(t[3], t[4]) for t in U.pool_map(_impl_shard, [(g, scope[0], scope[1]) for g in groups], workers=14)]
     for cnt, bad in res:
         ck.count('oracle_exhaustive_chunked_runs', cnt)
@@ -991,8 +999,9 @@ def search(ck: Ck, escalate: bool) -> None:
         if s:
             for g in range(0, 128, 8):      # (text, option group) - an undercount of the distinct (text, options) cases
                 ck.seen(('ox', s, g))
-    ck.hist('oracle', f'all strings <= {scope[0]} over {len(SYN_ALPHA)} symbols x 128 option vectors; every cut set up to length {scope[1]}, '
-                      f'beyond (16 representative option vectors: each option alone on / alone off): finest cut with empty chunks + one other cut set + line split', sum(c for c, _ in res))
+    ck.hist('oracle', f'all strings <= {scope[0]} over {len(SYN_ALPHA)} symbols x ' + ('128 option vectors' if len(scope) == 2 else
+            '32 option vectors (<= 2: all 128)') + f'; every cut set up to length {scope[1]}, beyond (16 representative option vectors: '
+            f'each option alone on / alone off): finest cut with empty chunks + one other cut set + line split', sum(c for c, _ in res))
     # (b) random longer texts: random chunkings, per-character, lines; read bound; EOF for ever
     rng = ck.rng
     m = 20000 if big else 2500
